@@ -274,6 +274,8 @@ class Ctx:
         return "new"
 
     def finish(self, coverage, assumptions=None, level="proof"):
+        if level not in ("exploration", "fault_enumeration", "model_checking", "proof", "translation_validation", "other"):
+            level = "proof" if level.startswith("proof") else "other"       # the evidence schema's enumeration
         nob = len(self.obligations)
         ndis = sum(1 for o in self.obligations if o[1])
         cov = dict(coverage)
